@@ -22,6 +22,19 @@ COUNT_WORDS = ("call:dim(", "call:nsamples(", "call:nrows(", "call:len_of(", "ca
 PARTS = ("records", "targets", "weights", "feature_names", "target_names")
 
 
+def is_rowcount_atom(a):
+    """an atom that reads the number of samples: dim().0, nsamples(), nrows(), len_of(Axis(0)), shape()[0] - not the column count"""
+    if not any(w in a for w in COUNT_WORDS):
+        return False
+    if "proj:1(call:dim(" in a or "Axis(1)" in a or "index(call:shape(" in a and a.rstrip(")").endswith(", 1"):
+        return False
+    return True
+
+
+def is_colcount_atom(a):
+    return "proj:1(call:dim(" in a or "call:ncols(" in a or "call:nfeatures(" in a or ("call:len_of(" in a and "Axis(1)" in a)
+
+
 def builder_summaries(F):
     """{method name: {part: 'self' | ('arg', i) | 'fresh'}} for the DatasetBase builder methods, read off their bodies:
     a struct literal `DatasetBase { records, targets: self.targets, weights: Array1::zeros(0), .. }` or
@@ -191,7 +204,7 @@ def rule_empty(ctx):
                     continue
                 for g in e.guards:
                     for t in walk_terms(g[3]):
-                        if isinstance(t, Cmp) and t.cop == "==" and g[0] == "+" and any(any(w in a for w in COUNT_WORDS) for a in t.poly.atoms()) and t.poly.t.get((), 0) == 0 and on_path(e, g[1]):
+                        if isinstance(t, Cmp) and t.cop == "==" and g[0] == "+" and any(is_rowcount_atom(a) for a in t.poly.atoms()) and t.poly.t.get((), 0) == 0 and on_path(e, g[1]):
                             out_.append(t)
             # `if n == 0 { Err(..) } else { Ok(()) }` as the value of a helper, propagated by the caller's `?`
             for e in tr_.events:
@@ -199,7 +212,7 @@ def rule_empty(ctx):
                     continue
                 for g in e.guards:
                     for t in walk_terms(g[3]):
-                        if isinstance(t, Cmp) and t.cop == "==" and g[0] == "+" and any(any(w in a for w in COUNT_WORDS) for a in t.poly.atoms()) and t.poly.t.get((), 0) == 0:
+                        if isinstance(t, Cmp) and t.cop == "==" and g[0] == "+" and any(is_rowcount_atom(a) for a in t.poly.atoms()) and t.poly.t.get((), 0) == 0:
                             ek = k(e.val)
                             if on_path(e, g[1]) and any(x.kind == "try" and e.order < x.order <= before and ek in k(x.val) for x in tr_.events):
                                 out_.append(t)
@@ -226,6 +239,8 @@ def rule_empty(ctx):
         if guards:
             res.ok()
             res.sample({"fn": key, "guard": guards[0].key() if hasattr(guards[0], "key") else guards[0], "before": reds[0].name})
+        elif any(e.kind in ("ret", "iret") and as_term(e.val) is not None and as_term(e.val).is_call("Err") and e.order <= first and any(isinstance(t, Cmp) and t.cop == "==" and any(is_colcount_atom(a) for a in t.poly.atoms()) for g in e.guards for t in walk_terms(g[3])) for e in tr.events):
+            res.violate("%s : empty-test-on-columns" % key, "the emptiness test before the first reduction (`%s`) compares the number of *columns* with zero: a (0, p) matrix is not rejected and the reductions run over no rows" % reds[0].name, fn_loc(fn, reds[0].node["ln"]))
         else:
             res.violate("%s : no-empty-guard" % key, "no `sample count == 0 -> return Err(..)` test dominates the first reduction over the records (`%s`)" % reds[0].name, fn_loc(fn, reds[0].node["ln"]))
     return res.finish(4)
@@ -429,7 +444,7 @@ def rule_extrema(ctx):
     return res.finish(2)
 
 
-rule_memorder = layout.make_rule("R-C16-memorder", "raw memory-order buffers (as_slice_memory_order, into_raw_vec, as_ptr) of record matrices are used by position only behind an is_standard_layout() test", lambda f: f["d"]["krate"] == "linfa_preprocessing" and any(x in fn_file(f) for x in ("linear_scaling", "norm_scaling", "whitening")), "linfa-preprocessing scalers and whiteners")
+rule_memorder = layout.make_rule("R-C16-memorder", "raw memory-order buffers (as_slice_memory_order, into_raw_vec, as_ptr) of record matrices are used by position only behind an is_standard_layout() test", lambda f: (f["d"]["krate"] == "linfa_preprocessing" and any(x in fn_file(f) for x in ("linear_scaling", "norm_scaling", "whitening"))) or (f["d"]["krate"] == "linfa" and fn_file(f).endswith("lapack_bounds.rs")), "linfa-preprocessing scalers and whiteners and the linfa::dataset lapack adapters they call")
 
 def rule_stale(ctx):
     """no field of a fitted model is computed from a local that is stored in another field and mutated in between (rules/stale.py)"""
